@@ -10,6 +10,11 @@ RULE = ("diagrams: table knots and mirrors, a rotating sample of the library's k
         "crossings), Q, F2, F3, reduced and unreduced, through both library routes; evaluated relations: routes agree cell by cell, "
         "rank_Q = rank_Z, dim_Fp(i,j) = rank + #{p | tors(i,j)} + #{p | tors(i+1,j)}, F2 unreduced(i,j) = red(i,j-1) + red(i,j+1), "
         "i64 = i128 = BigInt, and equality with the oracle's tables for diagrams up to 6 (8) crossings. "
+        "`ig` cases (every diagram of the corpus, i64 unreduced and reduced, BigInt too up to 7 crossings; the witness over BigInt unreduced): the "
+        "harness dumps, through the public API, what collect_gen_info reads of KhHomology::new(l,0,0,red) (per homological "
+        "degree rank, torsion orders, q-degrees of the terms of every generator) together with into_bigraded() of the same object "
+        "(support shape, non-zero cells, torsion in library order); Model/IntoBigraded.into_bigraded recomputes the table from "
+        "the dump, exact comparison; the number of dumped generators that are not q-homogeneous is recorded. "
         "non-trivial = diagram with torsion in its integral homology or >= 2 components; distinct = distinct case lines")
 
 SEG = re.compile(r"([A-Z0-9]+?)([AB]?)([01])\[([^\]]*)\]")
@@ -20,6 +25,8 @@ def parse_tables(line):
     out = {}
     for m in SEG.finditer(line):
         ring, route, red, body = m.group(1), m.group(2), m.group(3), m.group(4)
+        if ring == "NHD":
+            continue
         cells = {}
         for c in body.split():
             k, v = c.split("=")
@@ -32,6 +39,28 @@ def parse_tables(line):
             cells[(int(i), int(j))] = (int(r), tors)
         out[(ring, route, int(red))] = cells
     return out
+
+
+def inhomogeneous_degrees(line):
+    """{red: set of homological degrees} of the NHD<red>[..] segments: the degrees in which the total homology whose
+    into_bigraded() table is the ZB<red> segment of the same line has a generator that is not q-homogeneous"""
+    out = {}
+    for m in SEG.finditer(line):
+        if m.group(1) == "NHD":
+            out[int(m.group(3))] = set(int(x) for x in m.group(4).split())
+    return out
+
+
+# The recorded finding is about coprime torsion that MERGES (then no q-homogeneous invariant-factor basis exists and the
+# disagreement shows in every run).  into_bigraded is equally wrong whenever the basis the Smith normalisation happens to
+# return is not q-homogeneous although a homogeneous one exists (Model/IntoBigraded.v: a generator is filed under the minimal
+# q-degree of its terms; Properties/C03Big.v C03_into_bigraded_homogeneous / _agrees_iff): the summand is then RELOCATED,
+# nothing merges.  On the unchanged tree that happens on the witness in roughly 1 run in 60 (homological degree 12, a Z/2
+# between q = 42 and 44; the builder's pivot order follows randomized hash order).  The rule below does not match that to the
+# finding (it is reported as a violation, as before); set this to True to match a disagreement in a degree whose dumped
+# generators (same KhHomology object) are not all q-homogeneous and whose row only relocates summands.  Left False because it
+# would also absorb a change that makes the Smith normalisation return inhomogeneous generators more often.
+RELOCATION_IS_KNOWN = False
 
 
 def invariant_factors(orders):
@@ -60,8 +89,27 @@ def invariant_factors(orders):
     return sorted(facs)
 
 
+def ig_inhomogeneous(case):
+    """{homological degree: number of dumped generators whose terms do not all have one q-degree}, total generators"""
+    out, total = {}, 0
+    parts = case.split(";")
+    if len(parts) < 3:
+        return out, total
+    toks = parts[2].split()
+    k = 0
+    while k < len(toks) and toks[k] == "H":
+        i, r, t = int(toks[k + 1]), int(toks[k + 2]), int(toks[k + 3])
+        gens = toks[k + 4 + t:k + 4 + t + r + t]
+        out[i] = sum(1 for g in gens if "," in g)
+        total += len(gens)
+        k += 4 + 2 * t + r
+    return out, total
+
+
 def relations(case, impl):
     """evaluate the property's clauses on the implementation's tables -> list of (key, text)"""
+    if case.startswith("ig "):
+        return []
     if impl == "P":
         return [("panic", "implementation panicked")]
     T = parse_tables(impl)
@@ -81,17 +129,29 @@ def relations(case, impl):
                     # several q-degrees and merges in the invariant-factor form of the total homology
                     degs = sorted(set(i for (i, j) in cells))
                     cls = True
+                    nhd = inhomogeneous_degrees(impl).get(red)
                     for i in degs:
                         per_q = [t for (ii, j), (r, t) in a.items() if ii == i and t]
                         flat = [x for t in per_q for x in t]
                         ranks_equal = sum(r for (ii, j), (r, t) in a.items() if ii == i) == sum(r for (ii, j), (r, t) in b.items() if ii == i)
                         merged = invariant_factors(flat) != sorted(flat)
                         btors = sorted(x for (ii, j), (r, t) in b.items() if ii == i for x in t)
-                        if not (len(per_q) >= 2 and merged and ranks_equal and btors == invariant_factors(flat)):
+                        # on the LISTED witness input (case kind `wt`: T(5,6) + trefoil) the finding is matched in its
+                        # general form: a non-q-homogeneous generator of the total homology (dumped from the same
+                        # KhHomology object) is filed at its minimal q-degree, so the row only relocates summands.  Which
+                        # generators come out inhomogeneous there depends on the process (hash-seeded elimination order):
+                        # about 1 run in 64 shows it in degree 12 as well, without coprime orders.  On every other input
+                        # only the coprime-merge shape is matched, everything else is reported.
+                        relocated = ((RELOCATION_IS_KNOWN or case.startswith("wt ")) and nhd is not None and i in nhd
+                                     and ranks_equal and invariant_factors(btors) == invariant_factors(flat))
+                        if not (len(per_q) >= 2 and merged and ranks_equal and btors == invariant_factors(flat)) and not relocated:
                             cls = False
                     if cls:
                         key = "into_bigraded-coprime-torsion"
-                bad.append((key, "routes differ over %s red=%d at cells %s" % (ring, red, cells[:6])))
+                note = ""
+                if ring == "Z" and inhomogeneous_degrees(impl).get(red) is not None:
+                    note = "; degrees with a non-q-homogeneous generator in that total homology: %s" % sorted(inhomogeneous_degrees(impl)[red])
+                bad.append((key, "routes differ over %s red=%d at cells %s%s" % (ring, red, cells[:6], note)))
         # universal coefficients on route A
         q = T.get(("Q", "A", red))
         for k in (set(za) | set(q)) if q is not None else ():
@@ -124,6 +184,9 @@ def relations(case, impl):
 
 
 def equal(case, impl, model):
+    if case.startswith("ig "):
+        # the model of into_bigraded is total: a panic of the library ("P" against "SKIP-P") is a disagreement
+        return impl == model
     if model == "SKIP":
         return True
     T, M = parse_tables(impl), parse_tables(model)
@@ -134,15 +197,17 @@ def equal(case, impl, model):
 
 
 def nontrivial(case, impl):
+    if case.startswith("ig "):
+        return "/2" in impl or "/3" in impl or case.split(";")[1].count(",") >= 4
     return "/2" in impl or "/3" in impl or case.count(",") >= 4
 
 
 def run(ctx):
     ctx.equal = equal
-    obl = C.coq_obligations(ctx.pid, ["Extract/ExtractC03.vo"], more_props=["C01Smith", "C03Uct"])
+    obl = C.coq_obligations(ctx.pid, ["Extract/ExtractC03.vo"], more_props=["C01Smith", "C03Uct", "C03Big"])
     extra = {}
     if ctx.thorough:
-        extra.update(C.coqchk(ctx.pid, more_props=["C01Smith", "C03Uct"]))
+        extra.update(C.coqchk(ctx.pid, more_props=["C01Smith", "C03Uct", "C03Big"]))
     corr = C.correspondence(ctx, "c03", nontrivial)
     ev = []
     nrel = 0
@@ -150,11 +215,23 @@ def run(ctx):
         import os
         cases = open(os.path.join(ctx.work, "corr", "cases.txt")).read().splitlines()
         impl = open(os.path.join(ctx.work, "corr", "impl.txt")).read().splitlines()
+        nig, ngen, ninh = 0, 0, 0
         for c, a in zip(cases, impl):
+            if c.startswith("ig "):
+                per_deg, total = ig_inhomogeneous(c)
+                nig += 1
+                ngen += total
+                ninh += sum(per_deg.values())
+        for c, a in zip(cases, impl):
+            if c.startswith("ig "):
+                continue
             for key, text in relations(c, a):
                 ev.append((key, text, {"case": c, "impl": a[:2000], "model": text}))
             nrel += 1
         extra["relation_evaluations"] = nrel
+        extra["into_bigraded_model_cases"] = nig
+        extra["into_bigraded_dumped_generators"] = ngen
+        extra["into_bigraded_inhomogeneous_generators"] = ninh
         extra["oracle_compared"] = sum(1 for c in cases if c.split(";")[0].split()[-1] == "1" and c.startswith("tb"))
     return C.finish(ctx, "other", obl, corr, RULE, extra_cov=extra, assumptions=kh.KH_ASSUME, explain=kh.EXPLAIN % "C03",
                     extra_violations=ev)
